@@ -599,6 +599,9 @@ FINDING_PREDICATES.update({
     # leave no mtime trace, invisible to the method by design (srcnewer=1 — a source IS newer and the run was skipped — stays a violation)
     "C05-timestamp-misses-non-mtime-changes": _c05(lambda m, f: f.get("kind") == "change-not-detected" and f.get("method") == "timestamp" and
                                                    f.get("srcnewer") == "0" and f.get("op") in ("removal", "rename", "addition", "edit", "mixed")),
+    # the run right after a successful --force run of the same task (nothing changed in between) executed the commands again: a
+    # forced run skips the fingerprint altogether, so it records none (first=run — after a NORMAL successful run — stays a violation)
+    "C05-force-records-no-fingerprint": _c05(lambda m, f: f.get("kind") == "not-idempotent" and f.get("first") == "force"),
     # (FIXED by TS1)
     "C05-timestamp-missing-generates": _c05(lambda m, f: f.get("kind") == "missing-generates-skipped" and f.get("method") == "timestamp"),
 })
